@@ -15,6 +15,12 @@ pub struct Alphabet {
     /// weak deletes under the single-delete discipline (puts are then also disciplined)
     pub wdel_discipline: bool,
     pub batch: bool,
+    /// every write is flushed into its own table (PutF / DelF)
+    pub put_f: bool,
+    pub put_f_big: bool,
+    pub del_f: bool,
+    pub flush_leveled: Vec<u8>,
+    pub abandon_ingests: Vec<Vec<(u8, IKind)>>,
     pub rotate: bool,
     pub flush: bool,
     pub flush_sealed: bool,
@@ -121,6 +127,24 @@ pub fn enabled_from(a: &Alphabet, d: &Driver, hist: &[Op]) -> Vec<Op> {
             }
         }
     }
+    if a.put_f {
+        for k in 0..nk {
+            out.push(Op::PutF { k, big: false });
+        }
+    }
+    if a.put_f_big {
+        for k in 0..nk {
+            out.push(Op::PutF { k, big: true });
+        }
+    }
+    if a.del_f {
+        for k in 0..nk {
+            out.push(Op::DelF { k });
+        }
+    }
+    for items in &a.abandon_ingests {
+        out.push(Op::IngestAbandon { items: items.clone() });
+    }
     for items in &a.ingests {
         out.push(Op::Ingest {
             items: items.clone(),
@@ -143,6 +167,11 @@ pub fn enabled_from(a: &Alphabet, d: &Driver, hist: &[Op]) -> Vec<Op> {
             // (only MoveDown onto an overlapping level produces anything else; see DESIGN 8)
             if leveled_shape(d) {
                 out.push(Op::Leveled { w: *w, p: *p });
+            }
+        }
+        for p in &a.flush_leveled {
+            if leveled_shape(d) {
+                out.push(Op::FlushLeveled { w: *w, p: *p });
             }
         }
         for t in &a.major {
@@ -236,6 +265,7 @@ fn has_wm(op: &Op, w: Wm) -> bool {
         Op::Flush { w: x }
         | Op::FlushSealed { w: x }
         | Op::Leveled { w: x, .. }
+        | Op::FlushLeveled { w: x, .. }
         | Op::Major { w: x, .. }
         | Op::MoveDown { w: x, .. }
         | Op::PullDown { w: x, .. }
@@ -476,10 +506,12 @@ impl Scenario for Std {
                         .iter()
                         .map(|g| (g.id, g.len, g.bytes, g.on_disk_bytes))
                         .collect();
-                    if gc != pre.gc_stats {
+                    let gc: Vec<_> = gc.into_iter().filter(|(id, ..)| last.version.blob_files.iter().any(|b| b.id == *id)).collect();
+                    let pre_gc: Vec<_> = pre.gc_stats.iter().filter(|(id, ..)| pre.blob_files.contains(id)).cloned().collect();
+                    if gc != pre_gc {
                         out.push(oracles::v(
                             "reopen:gc-stats",
-                            format!("blob gc stats {:?} -> {gc:?} across reopen", pre.gc_stats),
+                            format!("blob gc stats {pre_gc:?} -> {gc:?} across reopen"),
                         ));
                     }
                     let bf: Vec<_> = last.version.blob_files.iter().map(|b| b.id).collect();
